@@ -29,20 +29,31 @@ SUITES = {
         trace=dict(module="Trace_Multisig", cfg_in="Trace_Multisig.cfg.in"),
         props=["C12"],
     ),
+    "minerctl": dict(
+        mc=[dict(module="MC_MinerControl", cfg="MC_MinerControl.cfg", timeout=tiered(900, 3600), workers=tiered(6, 14))],
+        sim=dict(module="MC_MinerControl", cfg="Sim_MinerControl.cfg", num=tiered(150, 3000), depth=20),
+        tour_cap=tiered(1200, 10 ** 9),
+        driver="minerctl",
+        driver_args=lambda tier: ["--random", 250 if tier == "quick" else 8000, "--len", 30],
+        trace=dict(module="Trace_MinerControl", cfg_in="Trace_MinerControl.cfg.in"),
+        props=["C13", "C14"],
+    ),
 }
 
 # property -> suites whose traces carry formulas tagged with that property
 PROPS = {
     "C16": dict(suites=["paych"], title="Payment channel: vouchers redeem once and the payout is exact"),
+    "C13": dict(suites=["minerctl"], title="Control of a miner changes hands only by two-sided, delayed handover"),
     "C12": dict(suites=["multisig"], title="Multisig: spending needs a quorum of current signers, once, within the lock"),
 }
 
 NOT_BUILT = "check not built yet in this round (work in progress; see DESIGN.md build order)"
 NOT_APPLICABLE = {p: NOT_BUILT for p in
                   ["C01", "C02", "C03", "C04", "C05", "C06", "C07", "C08", "C09", "C10", "C11",
-                   "C13", "C14", "C15", "C17", "C18", "C19", "C20"]}
+                   "C14", "C15", "C17", "C18", "C19", "C20"]}
 
 LEVEL_TEXT = {
+    "C13": "Bounded exhaustive TLC model checking of spec/MinerControl.tla (all interleavings of the owner, worker and beneficiary hand-over protocols, withdrawals, the cron pending-worker step and epoch advances by owner, proposed owner, beneficiary, nominee and strangers; C13 formulas as action properties over a ghost that re-derives approvals from the accepted calls) + conformance: TLC-exported behaviours and random schedules run on a real miner actor created through the power actor; each recorded step is validated by TLC.",
     "C12": "Bounded exhaustive TLC model checking of spec/Multisig.tla (every interleaving of propose/approve/cancel by signers and outsiders with admin transactions and re-entrant self-calls executed inside the approving step, within small constants) + conformance: TLC-exported behaviours and random schedules run on the real multisig actor (created through init, inner sends really executed) and each recorded step is validated by TLC against the C12 formulas and the spec's transition function.",
     "C16": "Bounded exhaustive TLC model checking of spec/Paych.tla (all voucher/settle/collect interleavings within small constants, C16 formulas as invariants and action properties) + conformance: TLC-exported behaviours and random schedules are executed on the real paych actor and every recorded step is validated by TLC against the same formulas and the spec's transition relation.",
 }
